@@ -14,6 +14,11 @@ from vsa.cases import decide, executes, decision_table, resolve_ite
 
 LEVEL = "other"
 T = "votca::tools::"
+
+
+def nows_(x):
+    return re.sub(r"\s+", "", x or "")
+
 C = "votca::csg::"
 
 
@@ -38,6 +43,8 @@ def run(rep, tier):
                       "queue hands out the oldest edge of the oldest level and only queues edges that lead to unexplored vertices")
     rep.rule("R16.6", "findStructureId: every candidate start vertex is explored on its own fresh copy of the input graph (declared inside the candidate loop, "
                       "initialised from the parameter, which is not written before the loop ends), with its own visitor; the id kept is the largest")
+    rep.rule("R16.8", "reduceGraph keeps the vertex set: the reduced graph takes its nodes from the whole input graph (copyNodes(graph) on the returned object before every "
+                      "return, or graph.getNodes() handed to the constructor) - never from the vertices met in the chains, which leaves out isolated vertices")
     rep.rule("R16.7", "breadth-first order (necessary for shortest-path distance labels): getEdge_ takes the oldest edge of the front level queue and drops that queue "
                       "when it runs empty; addEdges_ never appends to the level queue being drained (the front one): edges of unexplored neighbours go to a fresh queue "
                       "pushed to the back (fewer than two level queues) or to the second queue (two level queues)")
@@ -309,6 +316,34 @@ def run(rep, tier):
                     okm = True
         rep.check(okm, "R16.6", "largest-id-wins", "the lexicographically largest candidate id is kept", "findStructureId does not keep the largest id over the candidates", f.loc())
     check_bfs(rep, F)
+    # ---------------------------------------------------------------- R16.8
+    rgs = [f_ for f_ in F.find(T + "reduceGraph") if f_.j.get("body") and "cfg" in f_.j]
+    rep.floor("R16.8", len(rgs), 1, "definition of reduceGraph")
+    for rg in rgs[:1]:
+        rep.analysed(rg)
+        g8 = CFG(rg)
+        gp = rg.j["params"][0]["name"]
+        copies = [n for n in rg.walk() if n.get("k") == "mcall" and (n.get("callee") or "").endswith("::copyNodes") and n.get("args") and show(unwrap(n["args"][0])) == gp and n["id"] in g8.where]
+        rets = [n for n in rg.walk() if n.get("k") == "return" and n["id"] in g8.where]
+        ok8, why8 = False, ""
+        if copies and rets:
+            obj = show(unwrap(copies[0]["obj"]))
+            ok8 = all(g8.dominates(copies[0]["id"], r_["id"]) and obj in show(r_.get("value") or {}) for r_ in rets)
+            why8 = "copyNodes(%s) does not precede every return of the object it fills" % gp
+        if not ok8:
+            cons = [n for n in rg.walk() if n.get("k") == "construct" and (n.get("callee") or "").endswith("ReducedGraph::ReducedGraph") and len(n.get("args") or []) == 2]
+            for c_ in cons:
+                a1 = nows_(show(unwrap(c_["args"][1])))
+                if a1 == gp + ".getNodes()":
+                    ok8 = True
+                else:
+                    d_ = [d for d in rg.decls.values() if d.get("name") == a1]
+                    filled_in_loop = [n for n in rg.walk() if n.get("k") in ("rangefor", "for") and a1 and any(a1 + "[" in show(x) for x in walk(n.get("body") or {}))]
+                    why8 = ("the reduced graph is built from the node map '%s', which is filled %s: a vertex without an edge is in no chain, so reduceGraph(g).expandGraph() loses "
+                            "every isolated vertex and its attributes" % (a1, "vertex by vertex inside the loop over the chains" if filled_in_loop else "from something other than the input graph's nodes"))
+            if not cons and not why8:
+                why8 = "neither copyNodes(%s) nor a construction from %s.getNodes() found" % (gp, gp)
+        rep.check(ok8, "R16.8", "reduce-keeps-nodes", "nodes of the reduced graph = nodes of the input graph", "reduceGraph: " + why8, rg.loc(), sample=True)
     rep.assumptions += ["std::sort orders by the comparator given; std::unordered_map iteration order is arbitrary",
                         "completeness of the traversal (every reachable vertex is visited), connected-component extraction, reduce/expand round trips and the "
                         "choice among equal-degree start vertices are NOT decided: they depend on queue dynamics over arbitrary graphs"]
